@@ -228,7 +228,7 @@ func drive(g geom, nPub int, mode logMode, scripts [][]cop, procs int, yield *ra
 		for _, b := range cr.held {
 			focus = append(focus, b)
 		}
-		n, cls, desc := compareAttribution(g, nPub, cr.held, lm, focus, func(n int) int { return yield.IntN(n) })
+		n, cls, desc := compareAttribution(g, nPub, listOf(cr.held), lm, focus, func(n int) int { return yield.IntN(n) })
 		run.Count("attribution_probes_concurrent_final", n)
 		if cls != "" {
 			cr.sk.report(compLog, "attribution-after-concurrent-run", cls, "after the run, log replayed by record timestamp: "+desc)
@@ -530,7 +530,7 @@ func TestConcurrentSameSubscriber(t *testing.T) {
 		nCl := 2 + rng.IntN(7)
 		nSubs := 1 + rng.IntN(3)
 		allocOnly := round%3 == 0 // "two racing on the same private IP": everybody asks for the same address at once
-		small := round < rounds/5   // the first rounds are tiny so that the stored witness is short
+		small := round < rounds/5 // the first rounds are tiny so that the stored witness is short
 		if small {
 			nCl, nSubs, allocOnly = 2+rng.IntN(3), 1, true
 		}
